@@ -302,7 +302,7 @@ void randomHistory(Ctx& c, long idx)
     {
         size_t k = r.range(1, 3);
         for (size_t e = 0; e < k; ++e)
-            c05::genStream(r, h, static_cast<int>(e), pickDevice(r), pickStream(r), r.range(1, 4), static_cast<uint16_t>(r.next()), 80);
+            c05::genStream(r, h, static_cast<int>(e), pickDevice(r), pickStream(r), r.range(1, 4), static_cast<uint16_t>(r.next()), r.chance(1, 25) ? 30000 : 80);
         order = c05::randomMerge(r, h);
         pos.assign(k, 0);
     }
@@ -333,9 +333,65 @@ void randomHistory(Ctx& c, long idx)
         c.sample("history of " + std::to_string(s.fed.size()) + " frames, first=" + hex(s.fed[0], 64), 3);
 }
 
+// reassembly whose declared segment bytes add up to more than 65535 (the 16-bit length of the reassembled message
+// wraps): outside the domain of the reassembly properties, but C02 quantifies over ALL histories of byte strings
+constexpr long kOverflowCases = 24;
+void overflowCase(Ctx& c, long j)
+{
+    Rng r = c.fixedRng(j, 23);
+    Session s{c};
+    uint16_t dev = pickDevice(r);
+    uint8_t stream = pickStream(r);
+    uint16_t seq = static_cast<uint16_t>(r.next());
+    std::vector<size_t> sizes;
+    switch (j % 8)
+    {
+        case 0: sizes = {40000, 30000}; break;
+        case 1: sizes = {65535, 1, 1}; break;
+        case 2: sizes = {65519, 16, 16, 16}; break;
+        case 3: sizes.assign(46, 1500); break;
+        case 4: sizes = {30000, 30000, 30000, 30000, 30000}; break;
+        case 5: sizes = {1, 65535, 65535}; break;
+        case 6: sizes = {65520, 15, 1, 0, 65535}; break;
+        default:
+        {
+            size_t total = 0;
+            while (total < 140000)
+            {
+                size_t n = r.chance(1, 3) ? r.range(20000, 65535) : r.range(0, 3000);
+                sizes.push_back(n);
+                total += n;
+            }
+            break;
+        }
+    }
+    bool eth = (j / 8) == 1;
+    for (size_t i = 0; i < sizes.size(); ++i)
+    {
+        GMsg m;
+        m.ts = r.next();
+        m.idWord = static_cast<uint32_t>(r.next());
+        m.ptype = eth ? wire::PT_ETHERNET : 0x31;
+        m.flags = (i == 0 ? wire::SEG_FIRST : (i + 1 == sizes.size() ? wire::SEG_LAST : wire::SEG_MID));
+        m.payload = r.bytes(sizes[i]);
+        Bytes tr;
+        if ((j / 8) == 2 && sizes[i] < 60000)
+            tr = Bytes(r.range(1, 40), 0xEE);
+        s.feed(buildFrame(1, dev, wire::MT_DATA, stream, seq++, {m}, tr));
+    }
+    // and an ordinary message afterwards on the same endpoint
+    GMsg u;
+    u.ptype = 0x31;
+    u.payload = r.bytes(10);
+    s.feed(buildFrame(1, dev, wire::MT_DATA, stream, seq++, {u}));
+    s.finish();
+    c.sig(mix64(0x0f10, static_cast<uint64_t>(j)));
+    c.count("reassembly_totals_beyond_65535");
+}
+
 long c02Count(Ctx& c)
 {
-    return static_cast<long>(canon().size()) * (kFieldsPerFrame + 1) + 256 + (c.thorough() ? 250000 : 3000);
+    return static_cast<long>(canon().size()) * (kFieldsPerFrame + 1) + 256 + kOverflowCases + (c.thorough() ? 250000 : 3000);
 }
 void c02Run(Ctx& c, long idx)
 {
@@ -345,7 +401,10 @@ void c02Run(Ctx& c, long idx)
     idx -= nc;
     if (idx < 256)
         return tecmpSweep(c, idx);
-    randomHistory(c, idx + nc + 256);
+    idx -= 256;
+    if (idx < kOverflowCases)
+        return overflowCase(c, idx);
+    randomHistory(c, idx + nc + 256 + kOverflowCases);
 }
 
 // -------------------------------------------------------------------------------------------------
